@@ -72,8 +72,32 @@ def gen_der(chk, r):
         if L > 2 and r.chance(1, 2): b[2] = 2
         emit(bytes(b), 'der_random')
     emit(b'', 'der_empty')
+    der_wrapping_lengths(chk, emit)
     # 300-byte inputs: long garbage, long-form lengths pointing beyond
     emit(b'\x30\x82\x01\x28' + b'\x02\x82\x01\x24' + b'\x00' * 292, 'der_long'); emit(b'\x30\x81\xff' + b'\x02\x81\xfb' + b'\x01' * 251 + b'\x02\x01\x01', 'der_long')
+
+def der_wrapping_lengths(chk, emit):
+    """long-form lengths with MORE than sizeof(size_t) length octets whose low eight octets spell the true length (a parser that
+    shifts the leading octets out of its accumulator would accept them); the contents need a length >= 128 so that the wrapped
+    value passes the minimality rule: an oversize first INTEGER (parses to an overflowed, i.e. zero, scalar) and a small second one"""
+    r = chk.rng
+    for ilen in (128, 129, 200):
+        body1 = bytes([1 + r.below(0x7f)]) + r.bytes(ilen - 1)
+        int1 = b'\x02' + bytes([0x81, ilen]) + body1
+        int2 = b'\x02\x01' + bytes([1 + r.below(0x7f)])
+        content = int1 + int2; n = len(content)
+        canon = bytes([0x81, n]) if n < 256 else bytes([0x82, n >> 8, n & 255])
+        emit(b'\x30' + canon + content, 'der_oversize_integer_canonical_lengths')
+        for nlen in (9, 10, 16, 126):
+            for lead in (1, 0x80, 0xff):
+                wrap = bytes([0x80 | nlen, lead]) + bytes(nlen - 1 - 8) + n.to_bytes(8, 'big')
+                emit(b'\x30' + wrap + content, 'der_length_more_than_8_octets_wrapping')
+                wrapi = bytes([0x80 | nlen, lead]) + bytes(nlen - 1 - 8) + ilen.to_bytes(8, 'big')
+                c2 = b'\x02' + wrapi + body1 + int2; n2 = len(c2)
+                emit(b'\x30' + (bytes([0x81, n2]) if n2 < 256 else bytes([0x82, n2 >> 8, n2 & 255])) + c2, 'der_length_more_than_8_octets_wrapping')
+        for nlen in (8, 7, 3):      # within size_t but with leading zero octets: non-minimal
+            wrap = bytes([0x80 | nlen]) + n.to_bytes(nlen, 'big')
+            emit(b'\x30' + wrap + content, 'der_length_leading_zero_octets')
 
 def gen(chk):
     r = chk.rng
